@@ -90,12 +90,40 @@ class SpsStub:
         self.solves = []
 
     @staticmethod
-    def eye(n, m=None):
+    def eye(n, m=None, k=0, dtype=None, format=None):  # noqa: A002
         m = n if m is None else m
         a = np.zeros((n, m), dtype=object)
-        for i in range(min(n, m)):
-            a[i, i] = 1.0
+        for i in range(n):
+            if 0 <= i + k < m:
+                a[i, i + k] = 1.0
         return Dense(a)
+
+    identity = eye
+
+    @staticmethod
+    def diags(diagonals, offsets=0, shape=None, format=None, dtype=None):  # noqa: A002
+        """scipy.sparse.diags: diagonal number k holds diagonals[r][i] at (i, i+k) for k >= 0 and (i-k, i) for k < 0."""
+        offs = [offsets] if np.isscalar(offsets) else list(offsets)
+        diagonals = [diagonals] if np.isscalar(offsets) and np.ndim(diagonals[0]) == 0 else list(diagonals)
+        if shape is None:
+            nn = len(diagonals[0]) + abs(int(offs[0]))
+            shape = (nn, nn)
+        n, m = shape
+        a = np.zeros((n, m), dtype=object)
+        for d, k in zip(diagonals, offs):
+            k = int(k)
+            d = np.asarray(d, dtype=object).ravel()
+            for t in range(len(d)):
+                i, j = (t, t + k) if k >= 0 else (t - k, t)
+                if 0 <= i < n and 0 <= j < m:
+                    a[i, j] = d[t]
+        return Dense(a)
+
+    @staticmethod
+    def csc_matrix(x, *a, **k):
+        return x if isinstance(x, Dense) else Dense(np.asarray(x, dtype=object))
+
+    csr_matrix = csc_matrix
 
     @staticmethod
     def dia_matrix(arg, shape):
@@ -507,7 +535,10 @@ def precheck(tier, seed):
         Ar = (sps.eye(n, n) + lam * Kr.T.dot(Kr)).toarray()
         Ad = (SpsStub.eye(n, n) + lam * Kd.T.dot(Kd)).a.astype(float)
         assert np.allclose(Ar, Ad), "I + lam K'K stand-in differs from scipy"
-        cnt += 2
+        bands = [rng.uniform(0.5, 2.0, size=n - abs(k)) for k in (-2, -1, 0, 1, 2)]
+        assert np.allclose(sps.diags(bands, offsets=[-2, -1, 0, 1, 2], format="csc").toarray(), SpsStub.diags(bands, offsets=[-2, -1, 0, 1, 2], format="csc").a.astype(float)), "diags stand-in differs from scipy"
+        assert np.allclose(sps.eye(n, n, format="csc").toarray(), SpsStub.eye(n, n, format="csc").a.astype(float))
+        cnt += 4
     return {"proxy_validations": cnt, "validated": cnt}
 
 
